@@ -35,11 +35,14 @@ def r03_1(ctx, rid="R03.1"):
         # (a) tokenizer input = last_buffer ++ input
         ok_a = False
         for p in paths:
-            init = [e for e in p.events if e[0] == "init" and e[2] == "data"]
-            ext = [e for e in p.events if e[0] == "call" and e[1].endswith("Extend>::extend") and e[2][0][0] == "local" and f.local_name(e[2][0][1]) == "data"]
             newt = [e for e in p.events if e[0] == "call" and e[1].startswith(TOK + "::new")]
-            if init and ext and newt:
-                ok_a = init[0][3] == ("field", ("param", 1), "last_buffer", HF) and ext[0][2][1] == ("param", 2) and p.events.index(init[0]) < p.events.index(ext[0]) < p.events.index(newt[0]) and newt[0][2][0][0] == "local" and f.local_name(newt[0][2][0][1]) == "data"
+            if not newt or newt[0][2][0][0] != "local":
+                continue
+            buf = newt[0][2][0][1]  # the buffer handed to the tokenizer
+            init = [e for e in p.events if e[0] == "init" and e[1] == buf]
+            ext = [e for e in p.events if e[0] == "call" and e[1].endswith("Extend>::extend") and e[2][0] == ("local", buf)]
+            if init and ext:
+                ok_a = init[0][3] == ("field", ("param", 1), "last_buffer", HF) and len(ext) == 1 and ext[0][2][1] == ("param", 2) and p.events.index(init[0]) < p.events.index(ext[0]) < p.events.index(newt[0])
                 break
         r.ob("carry:input-is-held-back-then-chunk", ok_a, f.site, "the tokenizer is fed self.last_buffer followed by the new chunk")
         # (b)/(c) every Ok return stores the leftover in input order
@@ -71,7 +74,13 @@ def r03_1(ctx, rid="R03.1"):
                 elif e[0] == "call" and e[1].endswith("Extend>::extend") and (e[2][0] == ("field", ("param", 1), "last_buffer", HF) or (lastv is not None and e[2][0] == lastv)):
                     v = e[2][1]
                     seq.append("raw" if (v[0] == "call" and v[1] == TOK + "::raw") else "buffered" if (v[0] == "call" and v[1] == TOK + "::buffered") else "?%s" % show(v, f))
-            inner = any(e[0] == "call" and e[1] == "std::string::String::into_bytes" and e[2][0][0] == "local" and f.local_name(e[2][0][1]) == "token_data" for e in p.events)
+            # a token text read with raw_as_string() and not yet appended anywhere is still pending
+            inner = False
+            for e in p.events:
+                if e[0] == "call" and e[1] == TOK + "::raw_as_string":
+                    inner = True
+                elif e[0] == "call" and e[1] == "std::string::String::push_str":
+                    inner = False
             want = ["pending-text", "raw", "buffered"] if inner else ["raw", "buffered"]
             if seq != want:
                 bad.append("leftover stored as %s, expected %s" % (seq, want))
